@@ -21,7 +21,7 @@ PROPERTY = "C16"
 LEVEL = "model_checking"
 
 COUNTS = [1, 2, 3, 10, 99, 100, 101, 200]
-COORD_KINDS = ["generic", "negative", "zero", "field-limit", "tiny", "small", "twelve-digits"]
+COORD_KINDS = ["generic", "negative", "zero", "field-limit", "five-digits", "tiny", "small", "twelve-digits"]
 
 
 def positions(n, kind, bonded):
@@ -47,6 +47,11 @@ def positions(n, kind, bonded):
         base[0] = (-9999.9999, 9999.9999, -1234.5678)
         if n > 1:
             base[-1] = (9999.9999, -9999.9999, 4321.8765)
+    elif kind == "five-digits":
+        # positive coordinates with five integer digits fill the ten-column field completely (neighbouring fields touch)
+        base[0] = (12345.6789, 99999.9999, 10000.0001)
+        if n > 1:
+            base[-1] = (54321.0005, 10000.0, 99999.0)
     elif kind == "tiny":
         base[0] = (1e-5, -1e-5, 4e-5)
     elif kind == "small":
